@@ -19,6 +19,11 @@ QMAX = 2**26          # per-tick quota bound of the theorems
 WANT_MAX = 2**28      # Rate::insert bound
 RATES = sorted(set([1, 2, 100, 1000, 1023, 1024, 5000] + [t + d for t in TABLE for d in (-1, 0, 1)] +
                    [3 << 20, 10 << 20, 40 << 20]))
+# every rate a generated case can pass to set_max_rate comes from a fixed universe, so that the chunk-size
+# policy of the code under test can be probed for exactly these values (props/c12.py -> coq/C12/PolicyGen.v)
+_rr = random.Random(20261001)
+ODD_RATES = sorted(set(_rr.randrange(1, 1 << 22) for _ in range(48)) | set(_rr.randrange(1, 600) for _ in range(8)))
+BIG_RATES = [2**31 - 1, 2**31, 2**32 - 2]
 DTS = [90000, 90001, 100000, 100001, 250000, 500000, 999999, 1000000, 1000001, 1500000, 2000000, 3000000]
 WANTS = [1, 2, 100, 511, 512, 513, 1023, 1024, 2047, 2048, 4096, 16383, 16384, 16385, 65536, 131072]
 
@@ -74,7 +79,7 @@ def valid_case(r, big=False):
     lists = 1
 
     def pick_rate():
-        return r.choice(RATES) if r.random() < 0.85 else r.randrange(1, 1 << 22)
+        return r.choice(RATES) if r.random() < 0.85 else r.choice(ODD_RATES)
 
     def set_root(v):
         nonlocal root_rate, last
@@ -201,7 +206,7 @@ def raw_case(r):
         elif c < 0.76:
             ops.append("A %d" % r.choice([1, 1000, 10**6, 61 * 10**6, 10**9]))
         elif c < 0.9:
-            ops.append("R %d %d" % (l, r.choice([0] + RATES + [2**31 - 1, 2**31, 2**32 - 2, 2**32 - 1, 2**32, 2**40])))
+            ops.append("R %d %d" % (l, r.choice([0] + RATES + ODD_RATES[:8] + BIG_RATES + [2**32 - 1, 2**32, 2**40])))
         elif c < 0.95:
             ops.append("X %d %d %d" % (l, k, r.choice(WANTS + bigs)))
         else:
@@ -312,3 +317,17 @@ def gen_session(seed, tier):
             c += " idle=%d" % r.randrange(2, 4)
         cases.append(c)
     return cases
+
+
+def all_rates(cases=None):
+    """Universe of set_max_rate arguments (<= UINT_MAX-1) the cases can contain; with `cases` given, also
+    everything that literally occurs in them (hand list, corpus, exhaustive alphabet)."""
+    u = set([0]) | set(RATES) | set(ODD_RATES) | set(BIG_RATES)
+    for c in (cases if cases is not None else HAND + [BUG_RATE_ADDED] + exhaustive_small()[:9]):
+        for o in c.split(","):
+            t = o.split()
+            if len(t) == 3 and t[0] == "R" and int(t[2]) <= UINT_MAX - 1:
+                u.add(int(t[2]))
+    for rate in [1000, 10240, 50000, 131072, 1 << 20]:      # idle_case
+        u |= set([rate, rate // 2 + 1, 4 * rate])
+    return sorted(u)
